@@ -220,6 +220,22 @@ def run_history(ctx, case):
     good = open(path, "rb").read()
     reads = [c for c in model["commands"] if c["cmd"] == "EEMSRead"]
     ctx.feature(("history", case["variant"], len(model["commands"])))
+    if case["variant"] == 0:
+        # type names of the *other* reader, given to the CSV reader after a NetCDF program existed in this process: refused
+        from mpilot.program import Program as _P0
+        arr.new_program(arr.NC_LIBS)
+        for pname in ("ReturnType", "DataType"):
+            for bad in ("Fuzzy", "Positive Float", "Positive Integer"):
+                err0 = None
+                try:
+                    _P0.from_source('A = EEMSRead(InFileName = "%s", InFieldName = %s, %s = "%s")' % (model["table"]["file"], list(model["table"]["cols"])[0] if list(model["table"]["cols"])[0].isidentifier() else "X0", pname, bad), libraries=libs, working_dir=d).run()
+                except Exception as e:
+                    err0 = e
+                ctx.count("rejections_checked")
+                if type(err0).__name__ != "ParameterNotValid":
+                    ctx.fail("history:netcdf-type-name-given-to-the-csv-reader:%s" % ("accepted" if err0 is None else "rejected-with-" + type(err0).__name__), {"parameter": pname, "value": bad})
+                    return
+                ctx.count("side_effect_free_rejections")
     if case["variant"] in (0, 1):
         # variant 0: accepted, file removed -> rejected before anything runs, file back -> accepted again
         # variant 1: the same, starting with the file absent
